@@ -662,125 +662,206 @@ example : NotSelected [("QConv2D", .dict []), ("other", .none)] dense0 "Dense" "
   ⟨rfl, rfl, rfl, by decide⟩
 
 
-/-! ## recorded defects of the code as it is (mirrored by the model) -/
+/-! ## selected ReLU-family layers (after fix 01d6934: the keys of the ORIGINAL class are removed) -/
 
-theorem delCfg_ok_has {l l' : PyVal} {k : String} (h : delCfg l k = .ok l') : cfgGet l k ≠ none := by
-  unfold delCfg at h
-  obtain ⟨c, hc, h⟩ := bind_ok h
-  obtain ⟨c', hc', h⟩ := bind_ok h
-  have h1 := sub_ok hc
-  unfold delItem at hc'
-  split at hc'
-  · rename_i d
-    split at hc'
-    · rename_i x hx
-      simp [cfgGet, h1, hx]
-    · cases hc'
-  · cases hc'
+/-- the ReLU-specific config keys the branch removes, per original class (utils.py:940-949) -/
+def reluKeys (cn : String) : List String :=
+  if cn = "LeakyReLU" then ["alpha"]
+  else if cn = "relu" then ["max_value", "alpha", "threshold"]
+  else ["max_value", "negative_slope", "threshold"]
 
-/-- LeakyReLU (finding C12-leakyrelu-keyerror), in general: a LeakyReLU layer (its config has no
-    `max_value`) that a non-dict QActivation / name entry selects makes the iteration raise — the
-    class name is overwritten before the key-deletion chain is dispatched on it. -/
-theorem C12_leakyrelu_step_fails (F : Flags) (qc : Dict) (st : Option String) (l : PyVal)
-    (hcls : clsOf l = some (.str "LeakyReLU")) (hmv : cfgGet l "max_value" = none)
-    (q : PyVal) (hq : getConfig qc l "QActivation" none = .ok q) (hne : q ≠ .none)
-    (hnd : ∀ d, q ≠ .dict d) : ∀ r, step F qc st l ≠ .ok r := by
-  intro r h
+theorem reluDelete_spec {cn : String} {l l' : PyVal} (h : reluDelete cn l = .ok l') :
+    (∀ k ∈ reluKeys cn, cfgGet l' k = none) ∧ (∀ k, k ∉ reluKeys cn → cfgGet l' k = cfgGet l k) ∧
+    (∀ k, k ≠ "config" → pget l' k = pget l k) := by
+  unfold reluDelete at h
+  unfold reluKeys
+  by_cases c1 : cn = "LeakyReLU"
+  · simp only [c1, if_true] at h ⊢
+    have s := delCfg_spec h
+    refine ⟨?_, ?_, s.2.2⟩
+    · intro k hk
+      simp only [List.mem_singleton] at hk
+      subst hk
+      exact s.1
+    · intro k hk
+      simp only [List.mem_singleton] at hk
+      exact s.2.1 k hk
+  · simp only [c1, if_false] at h ⊢
+    by_cases c2 : cn = "relu"
+    all_goals
+      simp only [c2, if_true, if_false] at h ⊢
+      obtain ⟨l1, h1, h⟩ := bind_ok h
+      obtain ⟨l2, h2, h⟩ := bind_ok h
+      have s1 := delCfg_spec h1
+      have s2 := delCfg_spec h2
+      have s3 := delCfg_spec h
+      refine ⟨?_, ?_, fun k hk => by rw [s3.2.2 k hk, s2.2.2 k hk, s1.2.2 k hk]⟩
+      · intro k hk
+        simp only [List.mem_cons, List.not_mem_nil, or_false] at hk
+        rcases hk with hk | hk | hk
+        · subst hk
+          rw [s3.2.1 _ (by decide), s2.2.1 _ (by decide)]
+          exact s1.1
+        · subst hk
+          rw [s3.2.1 _ (by decide)]
+          exact s2.1
+        · subst hk
+          exact s3.1
+      · intro k hk
+        simp only [List.mem_cons, List.not_mem_nil, or_false, not_or] at hk
+        rw [s3.2.1 k hk.2.2, s2.2.1 k hk.2.1, s1.2.1 k hk.1]
+
+/-- A ReLU / relu / LeakyReLU layer that a non-dict, truthy `QActivation` lookup (name entry
+    first, then the class entry) selects becomes a `QActivation` whose `activation` is exactly
+    that entry; the ReLU-specific keys of its ORIGINAL class are gone and every other config key
+    and every other top-level key except `registered_name` is unchanged.  For a LeakyReLU this
+    is the behaviour fix 01d6934 restored (before it the step raised `KeyError 'max_value'`). -/
+theorem C12_selected_relu (F : Flags) (qc : Dict) (st st' : Option String) (l l' : PyVal) (cn : String)
+    (hcn : cn = "ReLU" ∨ cn = "relu" ∨ cn = "LeakyReLU") (hcls : clsOf l = some (.str cn))
+    (q : PyVal) (hq : getConfig qc l "QActivation" none = .ok q) (hnd : ∀ d, q ≠ .dict d)
+    (ht : truthy q = true) (h : step F qc st l = .ok (l', st')) :
+    clsOf l' = some (.str "QActivation") ∧ cfgGet l' "activation" = some q ∧
+    (∀ k ∈ reluKeys cn, cfgGet l' k = none) ∧
+    (∀ k, k ∉ reluKeys cn → k ≠ "activation" → cfgGet l' k = cfgGet l k) := by
+  have hne : q ≠ .none := by
+    intro e
+    rw [e] at ht
+    cases ht
   unfold step stepCore at h
-  obtain ⟨r1, hb, _⟩ := bind_ok h
+  obtain ⟨r1, hb, h⟩ := bind_ok h
+  obtain ⟨l1, st1, fin⟩ := r1
   unfold branch at hb
   obtain ⟨c0, hc0, hb⟩ := bind_ok hb
   obtain ⟨cls, hcls', hb⟩ := bind_ok hb
-  have : cls = .str "LeakyReLU" := by
+  have : cls = .str cn := by
     have := sub_ok hcls'
     rw [clsOf] at hcls
     rw [hcls] at this
     exact (Option.some.inj this).symm
   subst this
-  have e1 : ("LeakyReLU" ∈ denseLike) = False := by decide
-  simp only [e1, if_false] at hb
-  have e2 : ("LeakyReLU" = "DepthwiseConv2D") = False := by decide
-  have e3 : ("LeakyReLU" = "SimpleRNN" ∨ "LeakyReLU" = "LSTM" ∨ "LeakyReLU" = "GRU") = False := by decide
-  have e4 : ("LeakyReLU" = "Bidirectional") = False := by decide
-  have e5 : ("LeakyReLU" = "Activation") = False := by decide
-  simp only [e2, e3, e4, e5, if_false] at hb
+  have e1 : (cn ∈ denseLike) = False := by
+    rcases hcn with h | h | h <;> subst h <;> decide
+  have e2 : (cn = "DepthwiseConv2D") = False := by
+    rcases hcn with h | h | h <;> subst h <;> decide
+  have e3 : (cn = "SimpleRNN" ∨ cn = "LSTM" ∨ cn = "GRU") = False := by
+    rcases hcn with h | h | h <;> subst h <;> decide
+  have e4 : (cn = "Bidirectional") = False := by
+    rcases hcn with h | h | h <;> subst h <;> decide
+  have e5 : (cn = "Activation") = False := by
+    rcases hcn with h | h | h <;> subst h <;> decide
+  simp only [e1, e2, e3, e4, e5, if_false, hcn, if_true] at hb
   unfold reluBranch at hb
   obtain ⟨q', hq', hb⟩ := bind_ok hb
   rw [hq] at hq'
   cases hq'
-  have hfin : ∀ qn r, reluFinish F q qn l ≠ .ok r := by
-    intro qn r hr
+  have hc : ∀ qn, reluCond q qn = true := by
+    intro qn
+    unfold reluCond
+    cases q <;> first | rfl | exact absurd rfl (hnd _)
+  have hpick : ∀ qn, reluPick q qn = .ok q := by
+    intro qn
+    unfold reluPick
+    cases q <;> first | rfl | exact absurd rfl (hnd _)
+  have hfin : ∀ qn, reluFinish F q qn cn l = .ok (l1, st1, fin) →
+      fin = true ∧ clsOf l1 = some (.str "QActivation") ∧ cfgGet l1 "activation" = some q ∧
+      (∀ k ∈ reluKeys cn, cfgGet l1 k = none) ∧
+      (∀ k, k ∉ reluKeys cn → k ≠ "activation" → cfgGet l1 k = cfgGet l k) := by
+    intro qn hr
     unfold reluFinish at hr
-    have hc : reluCond q qn = true := by
-      unfold reluCond
-      cases q <;> first | rfl | exact absurd rfl (hnd _)
     simp only [hc, if_true] at hr
-    obtain ⟨l2, hl2, _⟩ := bind_ok hr
+    obtain ⟨l2, hl2, hr⟩ := bind_ok hr
+    cases hr
     unfold reluApply at hl2
     obtain ⟨l3, hl3, hl2⟩ := bind_ok hl2
-    obtain ⟨l4, hl4, _⟩ := bind_ok hl2
-    have s := setCls_spec hl3
-    unfold reluDelete at hl4
-    obtain ⟨c2, hc2, hl4⟩ := bind_ok hl4
-    have hc2' := sub_ok hc2
-    have s1 := s.1
-    rw [clsOf] at s1
-    rw [s1] at hc2'
-    cases hc2'
-    have key : ∀ l5, delCfg l3 "max_value" ≠ .ok l5 := by
-      intro l5 hl5
-      have := delCfg_ok_has hl5
-      rw [cfgGet_of_top (s.2 "config" (by decide))] at this
-      exact this hmv
-    split at hl4
-    · rename_i hh
-      exact absurd (PyVal.str.inj hh) (by decide)
-    · rename_i hh
-      exact absurd (PyVal.str.inj hh) (by decide)
-    · obtain ⟨l5, hl5, _⟩ := bind_ok hl4
-      exact key l5 hl5
-  cases q with
-  | none => exact hne rfl
-  | bool _ | num _ _ | str _ | list _ | dict _ =>
-    all_goals
-      simp only at hb
-      obtain ⟨_, _, hb⟩ := bind_ok hb
-      obtain ⟨_, _, hb⟩ := bind_ok hb
-      obtain ⟨_, _, hb⟩ := bind_ok hb
-      exact hfin _ _ hb
+    obtain ⟨l4, hl4, hl2⟩ := bind_ok hl2
+    obtain ⟨q2, hq2, hl2⟩ := bind_ok hl2
+    rw [hpick] at hq2
+    cases hq2
+    simp only [ht, if_true] at hl2
+    have s3 := setCls_spec hl3
+    have s4 := reluDelete_spec hl4
+    have s5 := setCfg_spec hl2
+    have hact : ∀ k ∈ reluKeys cn, k ≠ "activation" := by
+      intro k hk e
+      subst e
+      unfold reluKeys at hk
+      split at hk
+      · simp at hk
+      · split at hk <;> simp at hk
+    refine ⟨rfl, ?_, s5.1, ?_, ?_⟩
+    · rw [clsOf, s5.2.2 _ (by decide), s4.2.2 _ (by decide)]
+      exact s3.1
+    · intro k hk
+      rw [s5.2.1 k (hact k hk)]
+      exact s4.1 k hk
+    · intro k hk hka
+      rw [s5.2.1 k hka, s4.2.1 k hk]
+      exact cfgGet_of_top (s3.2 "config" (by decide)) k
+  have hmain : fin = true ∧ clsOf l1 = some (.str "QActivation") ∧ cfgGet l1 "activation" = some q ∧
+      (∀ k ∈ reluKeys cn, cfgGet l1 k = none) ∧
+      (∀ k, k ∉ reluKeys cn → k ≠ "activation" → cfgGet l1 k = cfgGet l k) := by
+    cases q with
+    | none => exact absurd rfl hne
+    | bool _ | num _ _ | str _ | list _ | dict _ =>
+      all_goals
+        simp only at hb
+        obtain ⟨_, _, hb⟩ := bind_ok hb
+        obtain ⟨_, _, hb⟩ := bind_ok hb
+        obtain ⟨_, _, hb⟩ := bind_ok hb
+        exact hfin _ hb
+  obtain ⟨hfin', m1, m2, m3, m4⟩ := hmain
+  subst hfin'
+  simp only [if_true] at h
+  obtain ⟨l5, hl5, h⟩ := bind_ok h
+  cases h
+  have e := fixRegistered_spec hl5
+  refine ⟨?_, ?_, ?_, ?_⟩
+  · rw [clsOf, e.top "class_name" (by decide) (by decide)]
+    exact m1
+  · rw [e.cfg _ (by simp)]
+    exact m2
+  · intro k hk
+    rw [e.cfg _ (by simp)]
+    exact m3 k hk
+  · intro k hk hka
+    rw [e.cfg _ (by simp)]
+    exact m4 k hk hka
 
-/-- … and therefore the conversion of EVERY model that contains such a layer fails, wherever
-    the layer sits and whatever else the model contains. -/
-theorem C12_leakyrelu_model_fails (F : Flags) (qc : Dict) :
-    ∀ (ls : List PyVal) (st : Option String), (∃ l ∈ ls, ∀ st r, step F qc st l ≠ .ok r) →
-      ∀ ls', rewriteFrom F qc st ls ≠ .ok ls' := by
-  intro ls
-  induction ls with
-  | nil => intro st h; obtain ⟨l, hl, _⟩ := h; simp at hl
-  | cons a r ih =>
-    intro st h ls' hr
-    simp only [rewriteFrom] at hr
-    obtain ⟨p, hp, hr⟩ := bind_ok hr
-    obtain ⟨a', st'⟩ := p
-    obtain ⟨r', hr', _⟩ := bind_ok hr
-    obtain ⟨l, hl, hbad⟩ := h
-    simp only [List.mem_cons] at hl
-    rcases hl with hl | hl
-    · subst hl
-      exact hbad st _ hp
-    · exact ih st' ⟨l, hl, hbad⟩ r' hr'
+/-- list form: at every position of every converted model -/
+theorem C12_selected_relu_list (F : Flags) (qc : Dict) (ls ls' : List PyVal)
+    (h : rewrite F qc ls = .ok ls') (l l' : PyVal) (hm : (l, l') ∈ ls.zip ls') (cn : String)
+    (hcn : cn = "ReLU" ∨ cn = "relu" ∨ cn = "LeakyReLU") (hcls : clsOf l = some (.str cn))
+    (q : PyVal) (hq : getConfig qc l "QActivation" none = .ok q) (hnd : ∀ d, q ≠ .dict d)
+    (ht : truthy q = true) :
+    clsOf l' = some (.str "QActivation") ∧ cfgGet l' "activation" = some q ∧
+    (∀ k ∈ reluKeys cn, cfgGet l' k = none) := by
+  obtain ⟨st₁, st₂, hs⟩ := (rewriteFrom_zip F qc ls none ls' h).2 l l' hm
+  obtain ⟨h1, h2, h3, _⟩ := C12_selected_relu F qc st₁ st₂ l l' cn hcn hcls q hq hnd ht hs
+  exact ⟨h1, h2, h3⟩
 
 def leaky : PyVal := .dict [("class_name", .str "LeakyReLU"),
   ("config", .dict [("name", .str "lr"), ("alpha", .num 3 1)]), ("registered_name", .none)]
 
-/-- the witness replayed on the real code (KeyError 'max_value') -/
-theorem C12_leakyrelu_counterexample :
-    rewrite F0 [("QActivation", .str "quantized_relu(4)")] [dense0, leaky] = .error (.keyError "max_value") := by
+/-- regression witness of the repaired defect (was `KeyError 'max_value'` before 01d6934):
+    the LeakyReLU layer is converted, `alpha` is removed, the Dense layer is left alone -/
+theorem C12_leakyrelu_fixed_witness :
+    (rewrite F0 [("QActivation", .str "quantized_relu(4)")] [dense0, leaky]).toOption.map
+      (fun ls => ls.map fun l => (clsOf l, cfgGet l "activation", cfgGet l "alpha")) =
+    some [(some (.str "Dense"), some (.str "relu"), none),
+          (some (.str "QActivation"), some (.str "quantized_relu(4)"), none)] := by
   rfl
+
+/-- non-vacuity of `C12_selected_relu`: the witness meets its hypotheses -/
+example : clsOf leaky = some (.str "LeakyReLU") ∧
+    getConfig [("QActivation", .str "quantized_relu(4)")] leaky "QActivation" none
+      = .ok (.str "quantized_relu(4)") ∧ truthy (.str "quantized_relu(4)") = true := by
+  exact ⟨rfl, rfl, by decide⟩
 
 /-- … while a dict-valued QActivation entry without a matching key leaves the layer alone -/
 example : (rewrite F0 [("QActivation", .dict [("tanh", .str "quantized_tanh(4)")])] [leaky]).toOption.map
     (fun ls => ls.map clsOf) = some [some (.str "LeakyReLU")] := by rfl
+
+/-! ## recorded defects of the code as it is (mirrored by the model) -/
 
 def bidir : PyVal := .dict [("class_name", .str "Bidirectional"),
   ("config", .dict [("name", .str "bi"), ("layer", .dict [("class_name", .str "LSTM"),
